@@ -4,8 +4,8 @@
 #![allow(non_camel_case_types)]
 use vstd::prelude::*;
 use std::ops::{Add, Mul};
-use std::collections::HashMap;
-use std::collections::HashSet;
+
+
 use std::hash::{Hash, Hasher};
 
 // `format!` content and `log` output are irrelevant to every property decided here:
